@@ -251,7 +251,15 @@ def _worker(args):
                 seed = ss[idx]
                 other = ss[(idx + 1) % len(ss)] if len(ss) > 1 else None
                 acc.state(core.h64(qn, seed))
-                orc.check(cls, qn, seed, ('seed',), other=other)
+                st0 = orc.check(cls, qn, seed, ('seed',), other=other)
+                if st0 == 'doc' and qn in framing():
+                    # a seed that is refused (the malformed-but-consistent frames of mc/seeds.py): still refused, or
+                    # read with n beyond it, whatever follows
+                    for suf in [b'\x00\xc0\x80\x00\x00', b'\x00' * 64, b'\xff' * 64, seed] + ([other] if other else []):
+                        acc.count('inputs')
+                        k, r = orc._call(cls, 'immutable', seed + suf)
+                        if k == 'ok' and r[1] <= len(seed):
+                            orc.check(cls, qn, seed + suf, ('seed', 'followed_by_data'))
                 gens = [bytefam.i1_truncations(seed), bytefam.i2_substitutions(seed, thorough),
                         bytefam.i3_del_ins(seed, thorough)]
                 if thorough or qn in framing():
